@@ -20,7 +20,7 @@ EXPLANATION = (
     "a recycled heap buffer), and a decoded_values buffer that is a view is never passed to free - by the "
     "traces for the loaders and their helpers, by a typestate rule on decoded_ownership for the other "
     "functions of src/reader; (3) the three footer readers reject short files, a wrong trailing magic and "
-    "an oversized footer length (their gating is decided under C18). (4) R45: the functions that hand out a pointer into the bytes being parsed are found as a fixed point (carquet_buffer_reader_peek returns reader->data + pos; thrift_read_binary returns its result; a copying wrapper that hands the input pointer through on one branch joins the set), and at every call of one of them the result is only read, compared or copied - never stored through a member, a pointer or an array element: parsed metadata that pointed into the footer would be valid under mmap / buffer and dangling under stdio, which frees the footer after parsing. (state) the page and footer readers keep no file-scope or static state (a remembered stream position would make the stdio path depend on an earlier reader while mmap and buffer do not) - every mutable file-scope variable and static local under src/reader/ is thread-local, never written, or an accepted idempotent lazy table (rule shared with C07). (6) R46 as in C04.17 over src/reader: the decode buffers of the stdio and the mmap / buffer loaders are grown to at least the page that does not fit (a loader that under-allocates on a later, larger page makes one access mode fail where the others succeed). Decides these clauses, not row "
+    "an oversized footer length (their gating is decided under C18). (4) R45: the functions that hand out a pointer into the bytes being parsed are found as a fixed point (carquet_buffer_reader_peek returns reader->data + pos; thrift_read_binary returns its result; a copying wrapper that hands the input pointer through on one branch joins the set), and at every call of one of them the result is only read, compared or copied - never stored through a member, a pointer or an array element: parsed metadata that pointed into the footer would be valid under mmap / buffer and dangling under stdio, which frees the footer after parsing. (state) the page and footer readers keep no file-scope or static state (a remembered stream position would make the stdio path depend on an earlier reader while mmap and buffer do not) - every mutable file-scope variable and static local under src/reader/ is thread-local, never written, or an accepted idempotent lazy table (rule shared with C07). (6) R46 as in C04.17 over src/reader: the decode buffers of the stdio and the mmap / buffer loaders are grown to at least the page that does not fit (a loader that under-allocates on a later, larger page makes one access mode fail where the others succeed). (7) carquet_read_next_page executed on a loaded page once per ownership tag (owned / view): the copies into the caller's value and level arrays - source and byte count - are identical, so the zero-copy path of the mmap and buffer readers hands out the same levels the stdio path does. Decides these clauses, not row "
     "alignment of batches nor that nothing else invalidates zero-copy data before close.")
 
 PR = "src/reader/page_reader.c"
@@ -84,6 +84,8 @@ def run(ctx):
     ctx.clause("C03.1 page-loader siblings agree (callee/argument provenance/guards/cursor assignments)")
     ctx.clause("C03.2 footer readers agree")
     ctx.clause("C03.3 a DATA_VIEW pointer is never freed")
+    ctx.clause("C03.7 what a read hands to the caller (values, definition and repetition levels) does not depend on the ownership tag of the decoded page (owned buffer vs view of the mapping)")
+    ctx.floor("C03 ownership values through carquet_read_next_page", _level_handout(ctx), 2)
     ctx.clause("C03.4 parsed metadata does not point into the footer bytes it was parsed from: the stdio reader frees them after parsing, the mmap and buffer readers keep them")
     from ..rules import borrowed
     nb, bnames = borrowed.check(ctx, sorted(set(P.rel(f.file) for f in P.lib_functions() if P.rel(f.file).startswith(("src/thrift/", "src/reader/", "src/metadata/", "src/core/")))))
@@ -357,3 +359,55 @@ def _loader_siblings(ctx):
 
 def _sc(sc):
     return ", ".join("%s=%s" % (k, v) for k, v in sorted(sc.items()))
+
+
+def _level_handout(ctx):
+    """carquet_read_next_page on an already loaded page, executed once per value of the ownership tag of the decoded values
+    (owned buffer after the stdio / decode path, view of the mapping after the zero-copy path): what the caller's value,
+    definition-level and repetition-level arrays receive - which source, how many bytes - must be the same. The tag says
+    who frees the values; it is not allowed to decide what a read returns."""
+    from ..rules import sem
+    from ..rules.skeleton import Ptr
+    P = ctx.P
+    PRF = "src/reader/page_reader.c"
+    fn = P.fn_opt("carquet_read_next_page", PRF)
+    if fn is None:
+        raise AnalysisBroken("anchor function carquet_read_next_page in %s not found" % PRF)
+    key = "level-handout|%s:carquet_read_next_page" % PRF
+    what = "what carquet_read_next_page copies into the caller's value and level arrays does not depend on whether the decoded values are an owned buffer or a view of the mapping"
+    try:
+        ro = sem.field_offsets(P, "carquet_column_reader")
+        own = P.enum("carquet_data_ownership") if "carquet_data_ownership" in P.enums else None
+        if not own:
+            own = dict(next(((k, v) for k, v in P.enums.items() if any("DATA_VIEW" in c for c, _ in v["consts"])), (None, {"consts": []}))[1]["consts"])
+        if len(own) < 2:
+            raise sem.Inconclusive("the ownership enum was not found")
+        phys = P.enum("carquet_physical_type")
+        seen = {}
+        for oname, oval in sorted(own.items(), key=lambda kv: kv[1]):
+            heap0 = {}
+            for f in P.record("carquet_column_reader")["fields"]:
+                t = f.get("t") or ""
+                if f.get("off") is not None and "[" not in t and "struct" not in t:
+                    heap0[("rd", f["off"] // 8)] = 0
+            heap0.update({("rd", ro["page_loaded"]): 1, ("rd", ro["page_num_values"]): 5, ("rd", ro["page_values_read"]): 1, ("rd", ro["values_remaining"]): 9,
+                          ("rd", ro["type"]): phys["CARQUET_PHYSICAL_INT32"], ("rd", ro["decoded_values"]): Ptr("dv", 0, 1),
+                          ("rd", ro["decoded_def_levels"]): Ptr("dd", 0, 2), ("rd", ro["decoded_rep_levels"]): Ptr("dr", 0, 2),
+                          ("rd", ro["decoded_ownership"]): oval})
+            copies = []
+
+            def mc(ev, a, it, copies=copies):
+                copies.append((a[0].base if isinstance(a[0], Ptr) else a[0], (a[1].base, a[1].off) if isinstance(a[1], Ptr) else a[1], a[2]))
+                return a[0]
+            ret, ev, heap = sem.run(P, fn, [Ptr("rd", 0, 1), Ptr("vals", 0, 1), 3, Ptr("defl", 0, 2), Ptr("repl", 0, 2), Ptr("nread", 0, 8), Ptr("err", 0, 1)],
+                                    heap0=heap0, single=True, max_forks=16, budget=200000, inline_depth=3,
+                                    hooks={"memcpy": mc, "__builtin_memcpy": mc, "carquet_error_set": lambda ev, a, it: None})
+            seen[oname] = (ret, sorted(copies, key=repr), heap.get(("nread", 0)))
+        vals = list(seen.values())
+        same = all(v == vals[0] for v in vals)
+        ctx.ob("R9.siblings", key, P.where(fn.body), what + " (%d ownership values)" % len(seen), same,
+               "" if same else "; ".join("%s: returns %s, copies %s" % (k.replace("CARQUET_DATA_", ""), v[0], [(c[0], c[1][0] if isinstance(c[1], tuple) else c[1], c[2]) for c in v[1]]) for k, v in sorted(seen.items())))
+        return len(seen)
+    except (sem.Inconclusive, KeyError) as ex:
+        ctx.inconclusive("R9.siblings", key, P.where(fn.body), what, "%s: %s" % (type(ex).__name__, ex))
+        return 0
